@@ -332,6 +332,28 @@ func handleLMove(params internal.HandlerFuncParams) ([]byte, error) {
 		return nil, errors.New("both source and destination must be lists")
 	}
 
+	// There is nothing to move out of an empty list.
+	if len(sourceList) == 0 {
+		return []byte("$-1\r\n"), nil
+	}
+
+	// When source and destination are the same key, the element is rotated within the one list.
+	if source == destination {
+		var rotated []string
+		switch {
+		case whereFrom == "left" && whereTo == "right":
+			rotated = append(append([]string{}, sourceList[1:]...), sourceList[0])
+		case whereFrom == "right" && whereTo == "left":
+			rotated = append([]string{sourceList[len(sourceList)-1]}, sourceList[:len(sourceList)-1]...)
+		default:
+			rotated = append([]string{}, sourceList...)
+		}
+		if err = params.SetValues(params.Context, map[string]interface{}{source: rotated}); err != nil {
+			return nil, err
+		}
+		return []byte(constants.OkResponse), nil
+	}
+
 	switch whereFrom {
 	case "left":
 		err = params.SetValues(params.Context, map[string]interface{}{
